@@ -1,23 +1,70 @@
 """C03 - CORS response headers are well-formed and never over-grant, for any request."""
+import json
+
 from vlib import Infra
 import servelib
+
+RP_CFG = """SPECIFICATION Spec
+CONSTANTS
+  PBug = "%s"
+  MaxTail = %d
+  DumpCases = %s
+INVARIANTS ParseInBounds LenientSound LenientComplete
+CONSTRAINT Dump
+CHECK_DEADLOCK FALSE
+"""
 
 
 def check(c):
     thorough = c.tier == "thorough"
     c.build_driver()
-    servelib.model(c, "HeadersWellFormed", [("echoLast", ["HeadersWellFormed"]), ("f4", ["HeadersWellFormed"]),
-                                              ("acamStarCred", None) if False else ("leakOnFail", None)][:2] + [])
-    n = 8 if thorough else 2
-    shards = [["-mode", "both", "-configs", "14", "-requests", "400" if thorough else "250"] for _ in range(n)]
-    tot = servelib.run_serve(c, "C03", shards, "response headers violate C03")
+    out = {}
+
+    def cors_model():
+        # M: the C03 conjuncts as invariants of Cors!Respond over the abstract request universe
+        servelib.model(c, "HeadersWellFormed", [("echoLast", ["HeadersWellFormed"]), ("f4", ["HeadersWellFormed"])])
+
+    def reqparse():
+        # M + G: the byte-level model of the lenient request-side scanner (ReqParse.tla): LenientSound / LenientComplete /
+        # ParseInBounds on every byte string of the bounded universe, each replayed through the real middleware
+        rcases = c.path("reqparse.ndjson")
+        c.model_check("ReqParseMC", RP_CFG % ("none", 7 if thorough else 5, "TRUE"), tag="ReqParseMC",
+                      env={"OUT_FILE": rcases}, timeout=3000, workers=6)
+        c.negative_twin("ReqParseMC", RP_CFG % ("portJunk", 6, "FALSE"), tag="ReqParseMC_neg_portJunk", expect=["LenientSound"], workers=4)
+        rsum = c.path("c03gen.json")
+        c.run_driver(["c03gen", "-cases", rcases, "-out", rsum], timeout=3000)
+        out["rs"] = json.load(open(rsum))
+
+    def serve():
+        # T: real responses to junk and structured requests, judged by TraceServe!C03ok
+        n = 8 if thorough else 2
+        shards = [["-mode", "both", "-configs", "14", "-requests", "400" if thorough else "250"] for _ in range(n)]
+        out["tot"] = servelib.run_serve(c, "C03", shards, "response headers violate C03")
+
+    c.parallel([cors_model, reqparse, serve], max_workers=3)
+    rs, tot = out["rs"], out["tot"]
+    for v in (rs["violations"] or []):
+        c.violation("Origin %r is echoed although it is not the serialization of an allowed origin" % v["origin"], v)
+    if rs["drift"]:
+        c.drift.append("ReqParse.tla differs from the real scanner/tree on %d of %d byte strings, e.g. %s" % (
+            rs["drift"], rs["cases"], json.dumps(rs["drifts"][:2])))
+    if rs["members"] == 0:
+        raise Infra("vacuous ReqParse replay")
+    if rs["f4_instances"] and not any(f["id"] == "F4" and f["status"] == "open" for f in c.findings):
+        c.violation("bracketed non-IPv6 hosts are echoed (finding F4 is not listed as open)", {"instances": rs["f4_instances"]})
+    c.cov["reqparse_strings_replayed"] = rs["cases"]
+    c.cov["reqparse_f4_instances"] = rs["f4_instances"]
+    c.cov["evaluations"] += rs["evaluations"]
     if tot["a"] == 0 or tot["preflights"] == 0:
         raise Infra("vacuous C03 run: %r" % tot)
     c.cov["distinct_nontrivial"] = tot["a"]
     c.cov["responses_with_acao"] = tot["a"]
     c.cov["preflight_requests"] = tot["b"]
-    c.cov["rule"] = ("8 fixed configuration kinds + seeded random ones x both debug modes x (structured request universe + junk "
+    c.cov["rule"] = ("T: 8 fixed configuration kinds + seeded random ones x both debug modes x (structured request universe + junk "
                      "requests: mutated allowed origins, multi-valued/empty/zero-length headers, over-long values, NUL/non-ASCII, "
                      "odd ports, any method); every recorded response judged by TraceServe!C03ok in TLC (strict OriginSyntax!"
-                     "SerializedOrigin + Origins!Allowed on the raw bytes); non-trivial = responses that carry ACAO")
+                     "SerializedOrigin + Origins!Allowed on the raw bytes); non-trivial = responses that carry ACAO. G: every byte "
+                     "string of <= %d bytes over {a,1,0,.,:,/,[,],A} after `h://` (the universe on which ReqParse.tla is model-checked) "
+                     "sent as Origin under a 5-pattern configuration and under allow-all; echo / scanner acceptance compared with the "
+                     "model and with the strict meaning") % (7 if thorough else 5)
     c.assumptions += ["Go projection: header abbreviations, comma tokenisation of list headers, byte codes of Origin/ACAO"]
